@@ -139,6 +139,23 @@ def run(chk):
     if not trans_ok:
         chk.cov.update(obligations=0, discharged=0, checker_cmd="(translator failed before make)", trusted_base=[])
     bad, n_eval, ndist = oracle(chk)
+    # correspondence of the from_parameters model (Model/FromParams.v) with the implementation, dimensions 1..7, exact
+    import jax.numpy as jnp
+    from tinygp import kernels, transforms
+    from vcheck.core import coq_eval, cvec
+    rng = np.random.default_rng(chk.seed + 19)
+    exprs, want = [], []
+    for d in range(1, 8):
+        dg = rng.integers(1, 9, size=d).astype(float)
+        off = rng.integers(-9, 10, size=(d * (d - 1)) // 2).astype(float)
+        cp = transforms.Cholesky.from_parameters(jnp.asarray(dg), jnp.asarray(off), kernels.ExpSquared(jnp.asarray(1.0)))
+        exprs.append(f"flatten (chol_from_parameters K {d} {cvec(dg)} {cvec(off)})")
+        want.append((d, dg, off, np.asarray(cp.factor)))
+    for (d, dg, off, fac), mv in zip(want, coq_eval("c19", "Model.FromParams", exprs)):
+        n_eval += 1
+        if not np.array_equal(np.asarray(mv, float), fac.ravel()):
+            bad.append(dict(what=f"from_parameters: model (Model/FromParams.v) differs from the implementation, d={d}", diagonal=dg.tolist(),
+                            off_diagonal=off.tolist(), expected=np.asarray(mv).tolist(), observed=fac.ravel().tolist()))
     chk.cov["evaluations"] = n_eval
     chk.cov["distinct_nontrivial"] = ndist
     chk.cov["disagreements_checked"] = n_eval
